@@ -49,6 +49,16 @@ def run_one(rec, scale, kind):
         t0 = time.time()
         out = ""
         verdict = "MISSED"
+        if rec.get("benign"):
+            verdict = "QUIET"
+            for prop in rec["property"]:
+                p = subprocess.run([sys.executable, os.path.join(VERIF, "check.py"), prop, "--tier", "quick"],
+                                   capture_output=True, text=True, env=env, cwd=VERIF, timeout=3600)
+                if p.returncode != 0:
+                    verdict = f"ALARM({prop}:{p.returncode})"
+                    out += p.stdout[-1500:] + p.stderr[-800:]
+                    break
+            return verdict, time.time() - t0, out
         for prop in rec["property"] if isinstance(rec["property"], list) else [rec["property"]]:
             p = subprocess.run([sys.executable, os.path.join(VERIF, "check.py"), prop, "--tier", "quick"],
                                capture_output=True, text=True, env=env, cwd=VERIF, timeout=3600)
@@ -70,9 +80,18 @@ def main():
     ap.add_argument("--scale", type=float, default=0.35)
     ap.add_argument("--seeded", action="store_true", help="run the kept sub-agent changes under /verif/seeded instead of the catalogue")
     ap.add_argument("--verbose", action="store_true")
+    ap.add_argument("--benign", action="store_true", help="run the behaviour-preserving refactorings under /verif/benign: every listed check must exit 0")
     args = ap.parse_args()
     recs = []
-    if args.seeded:
+    if args.benign:
+        base = os.path.join(VERIF, "benign")
+        for name in sorted(os.listdir(base)) if os.path.isdir(base) else []:
+            meta = os.path.join(base, name, "meta.json")
+            if os.path.exists(meta):
+                m = json.load(open(meta))
+                recs.append({"id": name, "property": m["checks"], "patch": os.path.join(base, name, "patch.diff"), "why": m.get("what", ""), "benign": True})
+        kind = "patch"
+    elif args.seeded:
         base = os.path.join(VERIF, "seeded")
         for name in sorted(os.listdir(base)) if os.path.isdir(base) else []:
             meta = os.path.join(base, name, "meta.json")
@@ -93,11 +112,11 @@ def main():
             continue
         verdict, wall, out = run_one(rec, args.scale, kind)
         print(f"{rec['id']:28s} {'/'.join(props):8s} {verdict:12s} {wall:6.1f}s  {rec.get('why', '')[:70]}", flush=True)
-        if args.verbose or verdict not in ("CAUGHT",):
+        if args.verbose or verdict not in ("CAUGHT", "QUIET"):
             print("    " + out.strip().replace("\n", "\n    ")[-1200:])
         results.append((rec["id"], verdict))
-    missed = [r for r in results if r[1] != "CAUGHT"]
-    print(f"{len(results) - len(missed)}/{len(results)} caught")
+    missed = [r for r in results if r[1] not in ("CAUGHT", "QUIET")]
+    print(f"{len(results) - len(missed)}/{len(results)} {'quiet' if args.benign else 'caught'}")
     return 1 if missed else 0
 
 
